@@ -665,7 +665,82 @@ func (c *ExecCtx) recvValue(st *State, ch Val, chExpr ast.Expr, pos token.Pos) V
 	c.typeFacts(st, v, ct.Elem())
 	val := Val{v, ct.Elem()}
 	c.checkChanInv(st, chExpr, val, pos, true)
+	if spec := c.ownSpec(); spec != nil {
+		for _, g := range spec.Ghosts {
+			if g.Anchor == "recv("+exprString(chExpr)+")" {
+				g.used = true
+				c.execGhostWith(st, g, pos, map[string]Val{"ʃmsg": val})
+			}
+		}
+	}
 	return val
+}
+
+// chanNeverClosed: e names a local channel variable of the enclosing function
+// declaration that is created there with make and only ever used as the
+// operand of send / receive / range (never closed, passed on, stored or
+// aliased). A receive from it never observes a closed channel.
+func (c *ExecCtx) chanNeverClosed(e ast.Expr) bool {
+	id, ok := ast.Unparen(e).(*ast.Ident)
+	if !ok {
+		return false
+	}
+	obj, ok := c.info.ObjectOf(id).(*types.Var)
+	if !ok || isPkgLevel(obj) || obj.IsField() {
+		return false
+	}
+	root := c
+	for root.fn == nil && root.parent != nil {
+		root = root.parent
+	}
+	if root.fn == nil || root.fn.Decl == nil || root.fn.Decl.Body == nil {
+		return false
+	}
+	body := root.fn.Decl.Body
+	if obj.Pos() < body.Pos() || obj.Pos() > body.End() {
+		return false // parameter or foreign
+	}
+	info := root.fn.Pkg.TypesInfo
+	okAll, made := true, false
+	var stack []ast.Node
+	ast.Inspect(body, func(n ast.Node) bool {
+		if n == nil {
+			stack = stack[:len(stack)-1]
+			return true
+		}
+		stack = append(stack, n)
+		uid, isID := n.(*ast.Ident)
+		if !isID || info.ObjectOf(uid) != obj || len(stack) < 2 {
+			return true
+		}
+		switch p := stack[len(stack)-2].(type) {
+		case *ast.UnaryExpr:
+			if p.Op == token.ARROW {
+				return true
+			}
+		case *ast.SendStmt:
+			if p.Chan == n {
+				return true
+			}
+		case *ast.RangeStmt:
+			if p.X == n {
+				return true
+			}
+		case *ast.AssignStmt:
+			// the defining  ch := make(chan T, n)
+			if len(p.Lhs) == 1 && len(p.Rhs) == 1 && p.Lhs[0] == n && p.Tok == token.DEFINE {
+				if call, ok := p.Rhs[0].(*ast.CallExpr); ok {
+					if f, ok := call.Fun.(*ast.Ident); ok && f.Name == "make" {
+						made = true
+						return true
+					}
+				}
+			}
+		}
+		okAll = false
+		return true
+	})
+	return okAll && made
 }
 
 func (c *ExecCtx) evalRecv(st *State, x *ast.UnaryExpr, commaOk bool) []Val {
@@ -678,6 +753,9 @@ func (c *ExecCtx) evalRecv(st *State, x *ast.UnaryExpr, commaOk bool) []Val {
 		return []Val{{u.fresh("recv", SInt), types.Typ[types.Invalid]}, {u.fresh("ok", SBool), types.Typ[types.Bool]}}
 	}
 	okT := u.fresh("recvok", SBool)
+	if c.chanNeverClosed(x.X) {
+		st.assumeT(okT)
+	}
 	base := len(st.assume)
 	open := st.fork()
 	open.assumeT(okT)
@@ -729,8 +807,19 @@ func (c *ExecCtx) execSelect(st *State, x *ast.SelectStmt, label string) []*Stat
 		cc := cl.(*ast.CommClause)
 		s := st.fork()
 		if cc.Comm != nil {
+			// a communication on a nil channel is never ready: the case is
+			// only taken when the channel is non-nil
+			chanNonNil := func(e ast.Expr) {
+				u.quiet++
+				cv := c.eval(s, e)
+				u.quiet--
+				if cv.T != nil && cv.T.Sort == SInt {
+					s.assumeT(Ne(cv.T, IntLit(0)))
+				}
+			}
 			switch cm := cc.Comm.(type) {
 			case *ast.SendStmt:
+				chanNonNil(cm.Chan)
 				c.execSend(s, cm)
 			case *ast.ExprStmt:
 				if ue, ok := ast.Unparen(cm.X).(*ast.UnaryExpr); ok && ue.Op == token.ARROW {
